@@ -30,4 +30,51 @@ PROPS = {
         "assumes": ["status codes passed to WriteHeader are non-zero (net/http panics on invalid codes)",
                     "hooks do not re-enter the writer (sync.Once would deadlock); Hijack/Push are pass-through and not modelled"],
     },
+    "C03": {
+        "n_quick": 6000, "n_thorough": 150000,
+        "technique": "Coq proof (fuel-indexed big-step semantics of run/Next, invariants by induction on fuel) + model/implementation correspondence on scripted handler stacks",
+        "level_text": "proof: theorems of coq/Props/C03.v about the Gallina model of context.go run()/Next() for every handler stack and every "
+                      "handler program; tied to the code by executing the same scripted stacks (middleware, nested groups, route handlers, "
+                      "action; writes, Next 0..3 times, cancel, panics, return values; GET and HEAD) on a real Flame and comparing event "
+                      "traces, status and body; the executable judgements order_ok / nest_ok / auto_ok judge the implementation's own traces",
+        "level_note": "trusts Coq kernel, extraction, glue; handlers are scripted programs over {WriteHeader, Write, Next, Cancel, panic, return values}; "
+                      "writes go through Context.ResponseWriter(); a handler re-mapping http.ResponseWriter is outside the model",
+        "rule": "random stacks: 0-3 middleware (one Use call each), 0-2 nested groups with 0-2 handlers, 0-3 route handlers, optional action; "
+                "each handler <=4 actions (WriteHeader/Write/Next/Cancel/Panic) and an optional return value of the C14 shapes; 20% HEAD. "
+                "Non-trivial: >=2 handlers and (a handler calls Next twice or >=2 Next calls overall); distinct by input.",
+        "what": "Model run()/Next()/Recovery vs real ServeHTTP: full Enter/Exit/Unwind/NextCall/NextRet trace (with the status and "
+                "cancellation each handler sees on entry), final status, body chunks, escaped panic.",
+        "assumes": ["status codes are valid (100..999)", "handlers write through the context's ResponseWriter"],
+    },
+    "C14": {
+        "n_quick": 6000, "n_thorough": 150000,
+        "technique": "Coq proof (case analysis over all values of the supported shapes) + correspondence incl. reflective and fast-path invocation",
+        "level_text": "proof: render_table / empty_writes_nothing / response_is_written (coq/Props/C14.v) for every value of the supported return "
+                      "shapes of the Gallina model of return_handler.go; tied to the code by handlers of every shape (string, []byte incl. nil "
+                      "and empty non-nil, error nil/non-nil of three concrete types, *string, (int,X), (X,error)) at every chain position, invoked "
+                      "reflectively and through the func() (int,string) fast path",
+        "level_note": "trusts Coq kernel, extraction, glue; reflect's Value.IsZero/Kind behaviour is modelled for the supported shapes only; "
+                      "ReturnHandler override is exercised under C04",
+        "rule": "random chains of 1-6 handlers where about half are pure 'return a value' handlers of a random supported shape (values: empty, "
+                "'s', 'hello', bytes 00ff; nil/empty slices; nil/non-nil errors; status from 7 codes). Non-trivial: the response is decided by a "
+                "return value (no earlier write); distinct by input.",
+        "what": "Model vs implementation: trace, status, body; spec: status/body equal the documented table for the first returned value.",
+        "assumes": ["int status values are valid HTTP codes"],
+    },
+    "C15": {
+        "n_quick": 6000, "n_thorough": 150000,
+        "technique": "Coq proof (panic propagation in the fuel-indexed chain semantics) + correspondence with the real Recovery middleware",
+        "level_text": "proof: theorems of coq/Props/C15.v about the Gallina model of Recovery inside the chain model, for Recovery at any position, "
+                      "panics of any value at any later position and phase; tied to the code by running the real flamego.Recovery() in scripted "
+                      "stacks with panics of string/error/runtime-error/struct/http.ErrAbortHandler values and unresolvable handler parameters, "
+                      "1-3 requests per instance, development and production mode",
+        "level_note": "trusts Coq kernel, extraction, glue; hypothesis H1 (handlers placed before Recovery call Next at most once and do not panic) "
+                      "is required: without it the statement is false of the code (known finding F16); panic(nil) is outside the domain",
+        "rule": "stacks with Recovery after 0-2 non-panicking middleware (<=1 Next each), then 1-6 handlers of which half may panic (7 value kinds) "
+                "or be unresolvable, before/after writes and inside nested Next; 1-3 requests on the same instance. Non-trivial: some later "
+                "handler can panic; distinct by input.",
+        "what": "Model vs implementation: trace, status, body (panic page / production text recognised), escaped panic, for each of the requests; "
+                "spec: nothing escapes, detail only in development, pre-Recovery middleware completes, all requests on the instance answer alike.",
+        "assumes": ["H1: pre-Recovery handlers call Next at most once (F16 is the recorded counter-example)"],
+    },
 }
